@@ -14,6 +14,21 @@ CLAIMED = {
              "different symbolic strings are compared.",
         ref="DESIGN.md section 6 C20", technique=XH),
 }
+CLAIMED["C03"] = dict(
+    text="Bounded symbolic model checking of the real to_xml/from_xml pair over a tree-level wire: for every message kind the library "
+         "defines, 0..2 (quick) / 0..3 (thorough) children, unbounded symbolic attribute and text strings, all vocabulary members and the "
+         "listed optional-attribute patterns, z3 shows on every path that parsing succeeds, yields the same kind and structural view and "
+         "re-serialises to the identical tree; also for a foreign spelling (attribute order, indentation).",
+    note="Trusted: ET.tostring/expat enter as the tree-wire contract (validated concretely each run); SymText model of str.strip(); "
+         "CrossHair's str/dict modelling. Text with surrounding whitespace or carriage return is outside the statement.",
+    ref="DESIGN.md section 6 C03", technique=XH)
+CLAIMED["C13"] = dict(
+    text="Bounded symbolic model checking of the real from_xml on element trees: for every tag (and an unknown one), 0..2/3 children, "
+         "every single-point perturbation of the quantifier (attribute missing, constrained field replaced by an unbounded symbolic string, "
+         "child of any kind, child text arbitrary/absent) z3 shows that parsing raises or the message is conformant to the DTD table of the harness.",
+    note="Trusted: TreeET element API twin; SymText strip() model; number syntax is checked on a pool of 12 spellings here (language "
+         "inclusion is the SMT engine's job in C10). One (quick) or two (thorough) simultaneous perturbations.",
+    ref="DESIGN.md section 6 C13", technique=XH)
 NA_DEFAULT = "check not built yet in this round (no verdict claimed); see DESIGN.md section 6 for the plan"
 
 checks, na = [], []
